@@ -48,6 +48,17 @@ def check(ctx):
                         rem.add((body.unit.rsplit("::", 1)[-1], m))
         ctx.add("1.cache-eviction-sites", "WMW", rem == {("prune_old_statuses", "entry")}, f"prunable_statuses entries are removed only by prune_old_statuses: {sorted(rem)}",
                 sites=sorted(map(str, rem)), site_key="rm")
+        # a submitted (non-prunable) status is kept until it is replaced: it is removed only when a newer status is published
+        nrem = set()
+        for body in F.crate("fuel_core_tx_status_manager")["bodies"]:
+            if D in body.adts_touched and "/manager.rs" in body.file:
+                for (fld, m) in ctx.field_ops(body, body.live, D):
+                    if fld == "non_prunable_statuses" and m in ("remove", "retain", "clear", "drain", "remove_entry", "take"):
+                        nrem.add((body.unit.rsplit("::", 1)[-1], m))
+        ctx.add("1.submitted-status-removed-only-on-replacement", "WMW", nrem == {("add_new_status", "remove")},
+                f"non_prunable_statuses entries are removed only by add_new_status (when a newer status arrives), never by pruning: {sorted(nrem)}", sites=sorted(map(str, nrem)), site_key="nrm")
+        pf = {fld for (fld, m) in ctx.field_ops(b, b.live, D)}
+        ctx.add("1.pruning-touches-only-the-prunable-side", "WMW", pf <= {"pruning_queue", "prunable_statuses"}, f"prune_old_statuses touches {sorted(pf)}", sites=sorted(pf), site_key="pf")
 
     with ctx.clause("2.add_new_status"):
         b = F.unit(f"{M}::add_new_status").root
